@@ -7,6 +7,8 @@ from fractions import Fraction
 
 import numpy as np
 
+from .. import shapes as S
+
 from ..core import fmt_list, fmt_ints, fmt_opt, parse_rats, frac, err_kind, close, vclose, pw_field, floats
 from .c10 import spec as search_spec
 
@@ -154,7 +156,37 @@ def gen_interval(rng):
             "target": rng.choice(RULES), "alpha": rng.choice(ALPHAS_INT)}
 
 
+def gen_long(rng, matchref=False):
+    """long series (hundreds of intervals) whose fixed points follow a repeating pattern of interval lengths - regular
+    sampling with a periodic irregularity (every k-th sample on average, not every k-th sample)"""
+    k = rng.randint(2, 5)
+    d = rng.randint(1, k - 1)
+    pat = rng.choice([[k, k - d, k + d, k], [k, k - d, k + d, k], [k - d, k + d], [k, k], [k, k + d, k - d, k, k],
+                      [rng.randint(1, 5) for _ in range(rng.randint(2, 4))]])
+    reps = rng.choice([128, 130, 160, 256, 300]) // len(pat) + 1
+    lens = (pat * reps)
+    F = [0]
+    for g in lens:
+        F.append(F[-1] + g)
+    n = F[-1] + 1
+    x = rng.increasing(n) if rng.random() < 0.5 else [Fraction(i, 4) for i in range(n)]
+    y = rng.values(n)
+    if not matchref:
+        Is = [rng.dyadic() for _ in range(len(F) - 1)]
+        return {"kind": "interval", "x": [str(v) for v in x], "y": [str(v) for v in y], "F": F, "Is": [str(v) for v in Is],
+                "target": rng.choice(RULES), "alpha": rng.choice(ALPHAS_INT), "long": True}
+    mode = rng.choice(["default", "values", "indices"])
+    xref = [x[f] for f in F]
+    return {"x": [str(v) for v in x], "y": [str(v) for v in y], "xref": [str(v) for v in xref],
+            "yref": [str(v) for v in rng.values(len(xref))],
+            "fpx": [str(v) for v in xref] if mode == "values" else None, "fpi": list(F) if mode == "indices" else None,
+            "strategy": rng.choice(["closest", "lower", "higher"]), "target": rng.choice(RULES), "ref": rng.choice(RULES),
+            "alpha": rng.choice(ALPHAS_INT), "kind": "valid", "long": True}
+
+
 def cases(rng, tier):
+    for i in range({"quick": 8, "thorough": 60}.get(tier, 3)):
+        yield gen_long(rng, matchref=i % 2 == 1)
     for _ in range({"quick": 150, "thorough": 2000}.get(tier, 100)):
         yield gen_interval(rng)
     if tier == "quick":
@@ -233,7 +265,7 @@ def run_impl(c):
         x = [Fraction(v) for v in c["x"]]
         y = [Fraction(v) for v in c["y"]]
         try:
-            r = _interval_integral_matching_stretch(np.array(floats(x)), np.array(floats(y)),
+            r = _interval_integral_matching_stretch(S.arr(floats(x)), S.arr(floats(y)),
                                                     integral_values=[float(Fraction(v)) for v in c["Is"]],
                                                     fixed_points_indices_in_x=np.array(c["F"]), integral_method=c["target"],
                                                     alpha=c["alpha"])
@@ -251,7 +283,7 @@ def run_impl(c):
         with warnings.catch_warnings():
             warnings.simplefilter("ignore")
             r = integral_matching_reference_stretch(
-                np.array(floats(x)), np.array(floats(y)), np.array(floats(xref)), np.array(floats(yref)),
+                S.arr(floats(x)), S.arr(floats(y)), S.arr(floats(xref)), S.arr(floats(yref)),
                 fixed_points_finding_strategy=c["strategy"], target_function_integral_method=c["target"],
                 reference_function_integral_method=c["ref"], alpha=c["alpha"], **kw)
         return {"ok": [float(v) for v in r], "type": type(r).__name__}
